@@ -401,6 +401,11 @@ func ParseNameAddrPVal(h HdrT, buf []byte, offs int, pfrom *PFromBody) (int, Err
 					pfrom.state = fbNewPossibleParam
 				}
 				setFromParamVal(buf, pfrom) // param without value
+			case ',':
+				if multipleValsOk(h) {
+					goto moreValues
+				}
+				return i, ErrHdrBadChar
 			default:
 				// no other char allowed after a param name token
 				// (the whitespace was already skipped in fb*ParamName)
@@ -494,6 +499,11 @@ func ParseNameAddrPVal(h HdrT, buf []byte, offs int, pfrom *PFromBody) (int, Err
 					pfrom.state = fbNewPossibleParam
 					setFromParamVal(buf, pfrom)
 				}
+			case ',':
+				if multipleValsOk(h) {
+					goto moreValues
+				}
+				return i, ErrHdrBadChar
 			default:
 				// no other char allowed after a param value token
 				return i, ErrHdrBadChar
@@ -552,7 +562,11 @@ endOfHdr:
 		fbPossibleParamNameEnd, fbParamName, fbPossibleParamName:
 		// uri or possible uri already found, make sure the params end is set
 		//pfrom.Params.Set(int(pfrom.Params.Offs), i)
-		if pfrom.state == fbParamName ||
+		if pfrom.state == fbParamNameEnd ||
+			pfrom.state == fbPossibleParamNameEnd {
+			// whitespace already skipped => use the saved param name end
+			i = pfrom.pend
+		} else if pfrom.state == fbParamName ||
 			pfrom.state == fbPossibleParamName {
 			pfrom.pend = i
 		}
@@ -564,6 +578,8 @@ endOfHdr:
 		}
 		pfrom.V.Extend(i)
 	case fbParamValEnd, fbPossibleValEnd:
+		// whitespace already skipped => use the saved param value end
+		i = pfrom.vend
 		setFromParamVal(buf, pfrom)
 		//pfrom.Params.Set(int(pfrom.Params.Offs), i)
 		pfrom.Params.Extend(i)
